@@ -2,6 +2,8 @@
 # run_mutation.sh <dir with patch.diff> <PROPERTY>...  : apply the patch to the scratch worktree /tmp/mut (at /repo's HEAD),
 # run the property checks against it (VERIF_REPO), undo the patch.  Evidence/replays of these runs go to .build/mut_*.
 D=$(realpath "$1"); shift
+# the scratch worktree is created on demand (and must be removed afterwards: git -C /repo worktree remove --force /tmp/mut)
+[ -d /tmp/mut ] || git -C /repo worktree add -q --detach /tmp/mut HEAD
 cd /tmp/mut && git checkout -q -- src && git checkout -q --detach $(git -C /repo rev-parse HEAD) && git apply "$D/patch.diff" || { echo "patch does not apply"; exit 2; }
 cd /verif
 for P in "$@"; do
